@@ -153,7 +153,9 @@ def _namemode_templates(_):
     res = Result()
     # second names: one that merely extends the first, and the names the library gives to its own temporaries
     from tcv.checks.c04 import NAMEMODE_OTHERS, namemode_desc
-    for second, ck in NAMEMODE_OTHERS:
+    import os
+    others = NAMEMODE_OTHERS if os.environ.get('VERIF_TIER') == 'thorough' else [o for o in NAMEMODE_OTHERS if o in (('exp_big', 'dir'), ('exp_tmp', 'json'), ('exp_tmp', 'dir'), ('exp_old', 'dir'))]
+    for second, ck in others:
         desc = namemode_desc(second, ck)
         jf = judge(desc, None)
         for slot in (0, 1):
